@@ -9,6 +9,7 @@ import Driver.KeepAlive
 import Driver.Countdown
 import Driver.Debounce
 import Driver.CfgStore
+import Driver.Update
 
 def main (args : List String) : IO UInt32 := do
   match args with
@@ -23,4 +24,5 @@ def main (args : List String) : IO UInt32 := do
   | ["countdown"] => Driver.CountdownDrv.main; return 0
   | ["debounce"] => Driver.DebounceDrv.main; return 0
   | ["cfgstore"] => Driver.CfgStoreDrv.main; return 0
+  | ["update"] => Driver.UpdateDrv.main; return 0
   | _ => IO.eprintln "usage: svdrv <subsystem>"; return 2
